@@ -1,4 +1,5 @@
 import O4.Lemmas.Socks5Handshake
+import O4.Lemmas.Socks5Target
 /-!
 # C17 — the SOCKS5 front end hands the transport exactly the target and arguments tor sent
 
@@ -210,6 +211,47 @@ example : (run [[5, 1, 0, 5, 1, 0, 1, 10, 0, 0, 1, 0, 80]] true).outcome = .fail
 set_option maxRecDepth 8192 in
 example : (run [[5, 1, 0], [5, 1, 0, 1, 10, 0, 0, 1, 0, 80]] true).outcome
     = .request [49, 48, 46, 48, 46, 48, 46, 49, 58, 56, 48] [] := by decide   -- "10.0.0.1:80"
+
+/-! ## the target names the destination unambiguously -/
+
+/-
+UNPROVED (full statement `target_injective`): for every address type, `(addr, port) ↦ Target` is
+injective on valid addresses, i.e. also
+  `∀ raw raw', raw.length = 16 → raw'.length = 16 → ipString16 raw = ipString16 raw' → raw = raw'`
+(the RFC 5952 zero-run compression of `net.IP.String()` loses nothing).  Proved below: IPv4 and
+domain names completely; for IPv6 the reduction to that one statement about `ipString16`.  The
+harness reads every generated IPv6 target back with `net.ParseIP` (S oracle), which samples it.
+-/
+/-- **per address type the target determines address and port** (IPv4, domain; IPv6 up to the
+    injectivity of `net.IP.String()`): the port is the decimal number after the last colon. -/
+theorem target_injective_partial :
+    (∀ a b c d a' b' c' d' : UInt8, ∀ p p' : Nat,
+      joinTarget (Addr.v4 a b c d).host p = joinTarget (Addr.v4 a' b' c' d').host p' →
+      a = a' ∧ b = b' ∧ c = c' ∧ d = d' ∧ p = p') ∧
+    (∀ n n' : Bytes, ∀ p p' : Nat,
+      joinTarget (Addr.domain n).host p = joinTarget (Addr.domain n').host p' → n = n' ∧ p = p') ∧
+    (∀ raw raw' : Bytes, ∀ p p' : Nat,
+      joinTarget (Addr.v6 raw).host p = joinTarget (Addr.v6 raw').host p' →
+      ipString16 raw = ipString16 raw' ∧ p = p') := by
+  refine ⟨?_, ?_, ?_⟩
+  · intro a b c d a' b' c' d' p p' e
+    obtain ⟨h, hp⟩ := joinTarget_injective e
+    obtain ⟨h1, h2, h3, h4⟩ := ipv4String_injective h
+    exact ⟨h1, h2, h3, h4, hp⟩
+  · intro n n' p p' e
+    exact joinTarget_injective e
+  · intro raw raw' p p' e
+    obtain ⟨h, hp⟩ := joinTarget_injective e
+    have h' : ipString16 raw ++ [RBR] = ipString16 raw' ++ [RBR] := by
+      simpa [Addr.host] using h
+    exact ⟨List.append_cancel_right h', hp⟩
+
+/-- across address types the target is *not* injective: the domain name "1.2.3.4" and the IPv4
+    address 1.2.3.4 give the same `Request.Target` (a fact about the interface, not a defect:
+    `net.Dial` treats both alike) -/
+theorem target_not_injective_across_types :
+    joinTarget (Addr.domain [49, 46, 50, 46, 51, 46, 52]).host 80 = joinTarget (Addr.v4 1 2 3 4).host 80 := by
+  decide
 
 /-! ## malformed input -/
 
